@@ -227,6 +227,8 @@ type compiled struct {
 	cJ   string
 	text string
 	pre  []finding // plan-level findings
+
+	sawRaise bool // Plan.Execute has already returned an error for this plan on some root
 }
 
 func (e *env) compile(arr []any, fn string) *compiled {
@@ -361,20 +363,30 @@ func (e *env) judgeRoot(cp *compiled, ri int) (out []finding) {
 		}
 		return
 	}
-	// (1) totality: Plan.Execute itself. (2) determinism: the same plan again
-	// on a fresh copy, this time through evalDirect (Execute's own body under
-	// our recover; it also yields the value for (3), and it skips the stack
-	// capture of ojg.NewError that dominates the cost of an error result).
-	r1 := e.execute(cp.p, e.mkRoot(ri))
-	if r1.escaped != nil {
-		add("panic", "execute:"+panicKind(r1.escaped), "nil or error", outcome(r1))
-		return
-	}
+	// (1) totality and (2) determinism: the same plan twice on fresh copies.
+	// The first run is evalDirect (Execute's own body under our recover; it
+	// yields the value for (3)). The second run is Plan.Execute itself whenever
+	// the first completed, and for the first root of each plan on which it
+	// raised; on the remaining raising roots it is evalDirect again, because
+	// ojg.NewError captures a stack trace that costs ten times the plan.
 	r2 := e.evalDirect(cp.p, e.mkRoot(ri), cp.fn)
+	var r1 result
+	if !r2.raised || !cp.sawRaise {
+		r1 = e.execute(cp.p, e.mkRoot(ri))
+		if r1.escaped != nil {
+			add("panic", "execute:"+panicKind(r1.escaped), "nil or error", outcome(r1))
+			return
+		}
+		if r1.raised {
+			cp.sawRaise = true
+		}
+	} else {
+		r1 = e.evalDirect(cp.p, e.mkRoot(ri), cp.fn)
+	}
 	stable := true
-	if what, same := sameOutcome(r1, r2); !same {
+	if what, same := sameOutcome(r2, r1); !same {
 		stable = false
-		add("nondeterministic", "second-run:"+what, outcome(r1), outcome(r2))
+		add("nondeterministic", "second-run:"+what, outcome(r2), outcome(r1))
 	}
 	if r1.raised {
 		e.cnt["raised"]++
@@ -445,11 +457,18 @@ func (e *env) judgeRoot(cp *compiled, ri int) (out []finding) {
 	return
 }
 
+// classOf is the coarse class of a value for the exp/got coordinates.
 func classOf(v any) string {
-	if b, ok := v.(bool); ok {
-		return fmt.Sprint(b)
+	switch k := kindOf(v); k {
+	case "int", "int0":
+		return "int"
+	case "float", "float0", "floatw":
+		return "float"
+	case "str", "str$", "strkw":
+		return "str"
+	default:
+		return k
 	}
-	return kindOf(v)
 }
 
 // semantic compares the implementation's value/raise/root with the set of
